@@ -1104,8 +1104,12 @@ class Linter:
             fname=fname,
             config=config,
         )
-        # Get rules as appropriate
-        rule_pack = self.get_rulepack(config=config)
+        # Get rules as appropriate.
+        # NOTE: Use the config of the parsed string, not the one passed in.
+        # The former has any inline `-- sqlfluff:` directives of this string
+        # applied (as happens for files via `render_file`), and they may
+        # configure rules.
+        rule_pack = self.get_rulepack(config=parsed.config)
         # Lint the file and return the LintedFile
         return self.lint_parsed(
             parsed,
